@@ -99,7 +99,10 @@ FIXED = ['', ' ', 'nan', 'inf', 'Infinity', 'NaN', '2 nan', 'm^nan', 'dam', 'dag
          'molecule', 'kmolecule', 'eV/molecule', 'kcal/mol', 'cal/(mol*K)', 'cal/(mol K)', '298.15 K', '100K', '1500 K',
          'm^0.5', 'm^.5 m^.5', 'm^0.5*m^0.5', 'm^0.3333333 m^0.3333333 m^0.3333334', 'm^1.00000001', 'm^0.9999999',
          'm/m', 'J/(N m)', '5', '5.0', '-5', '.5', '5.', 'µm', 'Ω', 'é', '2\xa0m', 'm\nkg', 'm\tkg', '1e3', '1E3 m', 'e', 'E',
-         '0 m', '0.0 kJ/mol', '-0.0 m', 'kg^2/kg', 'h', 'hh', 'ha', 'a', 'aa', 'u', 'uu', 'dm', 'dd', 'd', 'da', 'Y', 'YY']
+         '0 m', '0.0 kJ/mol', '-0.0 m', 'kg^2/kg', 'h', 'hh', 'ha', 'a', 'aa', 'u', 'uu', 'dm', 'dd', 'd', 'da', 'Y', 'YY',
+         # negative magnitudes and powers
+         '(-4)^0.5', '(-4)^(0.5)', '(-4)^0.5 m', '-4^0.5', '4.1-4^(-0.5)', '(-2 m)^0.5', '(-2 m)^3', '(-4)^2.0 m', '(-4)^2', '0^0.5',
+         '(-1 kJ/mol)^1.5', '-1^0.3333333', '3 * 4.1-4^(-0.5)  3*V', '(0-4)^0.5', '-0.0^0.5']
 
 
 def bounded(ctx):
@@ -235,6 +238,9 @@ def run(ctx):
         if 'exc' in r and r['exc'] not in ('UnitsParseError', 'ZeroDivisionError', 'OverflowError'):
             ctx.violate('eval-exc:%s' % r['exc'], 'eval_qty escaped with %s instead of the units parse error' % r['exc'],
                         {'op': 'eval', 'text': t}, 'value or UnitsParseError', r)
+        if r.get('kind') in ('complex', 'other'):
+            ctx.violate('eval-not-a-magnitude:%s' % r['kind'], 'eval_qty returned a value that is neither a number nor a quantity (%s)' % r.get('type', r['kind']),
+                        {'op': 'eval', 'text': t}, 'number, quantity or UnitsParseError', r)
         if r.get('kind') == 'qty' and not any(r['exps']):
             ctx.violate('eval-dimensionless-qty', 'a quantity with all exponents zero was returned instead of a plain number',
                         {'op': 'eval', 'text': t}, 'number', r)
